@@ -15,8 +15,8 @@ def run(tier):
                  ("d3-sim", dict(maxdepth=3, maxlen=3, simulate=60, depth=60, tlcseed=seed()))]
     else:
         plans = [("d1-l2", dict(maxdepth=1, maxlen=2)),
-                 ("d2-l2-sim", dict(maxdepth=2, maxlen=2, simulate=400, depth=60, tlcseed=seed())),
-                 ("d3-l3-sim", dict(maxdepth=3, maxlen=3, simulate=600, depth=80, tlcseed=seed() + 1))]
+                 ("d2-l2-sim", dict(maxdepth=2, maxlen=2, simulate=3000, depth=60, tlcseed=seed())),
+                 ("d3-l3-sim", dict(maxdepth=3, maxlen=3, simulate=4000, depth=80, tlcseed=seed() + 1))]
     for name, kw in plans:
         t0 = time.time()
         r = sidecheck.gen(wd, name, "ser", **kw)
@@ -35,14 +35,39 @@ def run(tier):
             samples.append({"plan": name, "case": cases[len(cases) // 2]})
         log("  %s: TLC %d states (%.1fs), %d scripts replayed, %d bad (%.1fs)" % (
             name, r.distinct, r.wall, n, bad, time.time() - t0))
+    # receives inside Deserialize impls (NestedRecv.tla)
+    nplans = [("nrecv-d1-l2", dict(maxdepth=1, maxlen=2)),
+              ("nrecv-d3-sim", dict(maxdepth=3, maxlen=3, simulate=80 if tier == "quick" else 800, depth=80, tlcseed=seed()))]
+    if tier != "quick":
+        nplans.append(("nrecv-d2-l2", dict(maxdepth=2, maxlen=2, simulate=1500, depth=80, tlcseed=seed() + 3)))
+    for name, kw in nplans:
+        t0 = time.time()
+        r = sidecheck.gen_nested_recv(wd, name, **kw)
+        require_ok(r, "MCNestedRecv " + name)
+        if r.violation:
+            rp = write_replay("C14", name + "-model", {"property": "C14", "kind": "model", "invariant": r.violation,
+                                                       "trace": r.trace[:5000]})
+            violations.append({"what": "NestedRecv.tla: %s violated" % r.violation, "replay": rp, "key": "model-nr"})
+            continue
+        states += r.distinct
+        transitions += r.generated
+        cases = sidecheck.cases_of(r)
+        n, bad = sidecheck.run_cases("C14", name, cases, violations, distinct)
+        replayed += n
+        if cases:
+            samples.append({"plan": name, "case": cases[len(cases) // 2]})
+        log("  %s: TLC %d states (%.1fs), %d values with nested receives replayed, %d bad (%.1fs)" % (
+            name, r.distinct, r.wall, n, bad, time.time() - t0))
     cov = {"states": states, "transitions": transitions, "traces_validated_against_impl": replayed,
            "evaluations": replayed, "distinct_nontrivial": len(distinct),
            "rule": "every script of SideTables.tla (slots D/S/R/M/serialisation failure/nested send with live or dead "
                    "receiver, failure swallowed or propagated) to depth 1 x 2 slots exhaustively, deeper ones by TLC "
-                   "simulation; distinct by script shape",
+                   "simulation; plus every value of NestedRecv.tla (slots D/S/R/M/receive-and-decode inside the Deserialize impl) "
+                   "to depth 1 x 2 slots exhaustively and to depth 3 x 3 slots by simulation; distinct by script shape",
            "samples": samples[:4]}
     return {"level": "model_checking", "coverage": cov, "violations": violations,
-            "assumptions": ["a nested send is issued from inside a Serialize impl of the harness' scripted value type",
+            "assumptions": ["a nested send is issued from inside a Serialize impl of the harness' scripted value type; a nested "
+                            "receive from inside a Deserialize impl (try_recv on a side channel whose message was sent before)",
                             "the table lengths are read through the cfg(ipc_channel_verif) hook verif_side_table_lens(); "
                             "release is additionally observed through disconnection of the attached channels"]}
 
